@@ -649,6 +649,10 @@ class PureScheduler:                                    # pylint: disable=r0902
         for job in self.jobs:
             job._task = None                            # pylint: disable=W0212
             job._running = False                        # pylint: disable=W0212
+            # the jobs of a nested scheduler would otherwise keep reporting
+            # the outcome of the previous run until that scheduler restarts
+            if isinstance(job, PureScheduler):
+                job._reset_tasks()
 
     def _backlinks(self):
         """
